@@ -112,8 +112,10 @@ type rewriter struct {
 	wrapW      map[ast.Expr]bool
 	mapR       map[ast.Expr]bool // map-typed operand whose content is read
 	mapW       map[ast.Expr]bool
-	chanFields map[types.Object]bool
-	chanSeen   map[*ast.SelectorExpr]bool
+	chanSend   map[*ast.SendStmt]bool
+	chanRecv   map[*ast.UnaryExpr]bool
+	chanCall   map[*ast.CallExpr]string
+	inComm     map[ast.Node]bool
 	parents    map[ast.Node]ast.Node
 	rangeIsMap map[*ast.RangeStmt]bool
 	tmpN       int
@@ -173,7 +175,7 @@ func rewritePackage(repo, gen string, ps pkgSpec, overlay map[string]string) []f
 		sum := sha256.Sum256(src)
 		rw := &rewriter{fset: fset, info: info, pkg: pkg, file: f, on: map[string]bool{}, count: map[string]int{},
 			needImport: map[string]string{}, wrapR: map[ast.Expr]bool{}, wrapW: map[ast.Expr]bool{}, mapR: map[ast.Expr]bool{}, mapW: map[ast.Expr]bool{},
-			chanFields: map[types.Object]bool{}, chanSeen: map[*ast.SelectorExpr]bool{}, parents: map[ast.Node]ast.Node{}, rangeIsMap: map[*ast.RangeStmt]bool{}}
+			parents: map[ast.Node]ast.Node{}, rangeIsMap: map[*ast.RangeStmt]bool{}}
 		for _, r := range ps.Rewrites {
 			rw.on[r] = true
 		}
@@ -231,8 +233,8 @@ func (rw *rewriter) run() []byte {
 		}
 		return true
 	})
-	if rw.on["chanfields"] {
-		rw.findChanFields()
+	if rw.on["chans"] {
+		rw.planChans()
 	}
 	if rw.on["probes"] {
 		rw.planProbes()
@@ -287,44 +289,70 @@ func sel(pkg, name string) *ast.SelectorExpr {
 	return &ast.SelectorExpr{X: ast.NewIdent(pkg), Sel: ast.NewIdent(name)}
 }
 
-// ---------------------------------------------------------------- channel fields
+// ---------------------------------------------------------------- channels
 
-func (rw *rewriter) findChanFields() {
+// With "chans" every channel of the file is modelled: channel types become *vchan.Chan[T],
+// make(chan T, n) becomes vchan.Make[T](n), send / receive / close / len / cap become method
+// calls, a select becomes `switch vchan.Select(cases…)`, time.After becomes vtime.After (a timer
+// is a virtual thread). Channels arriving from other packages would not type-check afterwards:
+// the build then fails and the check reports that it cannot run (exit 2) instead of guessing.
+
+func (rw *rewriter) isChan(e ast.Expr) bool {
+	t := rw.typeOf(e)
+	if t == nil {
+		return false
+	}
+	_, ok := t.Underlying().(*types.Chan)
+	return ok
+}
+
+func (rw *rewriter) planChans() {
+	rw.chanSend = map[*ast.SendStmt]bool{}
+	rw.chanRecv = map[*ast.UnaryExpr]bool{}
+	rw.chanCall = map[*ast.CallExpr]string{}
+	rw.inComm = map[ast.Node]bool{}
 	ast.Inspect(rw.file, func(n ast.Node) bool {
-		st, ok := n.(*ast.StructType)
-		if !ok {
-			return true
-		}
-		for _, fld := range st.Fields.List {
-			ct, ok := fld.Type.(*ast.ChanType)
-			if !ok {
-				continue
+		switch x := n.(type) {
+		case *ast.SendStmt:
+			rw.chanSend[x] = true
+		case *ast.UnaryExpr:
+			if x.Op == token.ARROW {
+				rw.chanRecv[x] = true
 			}
-			if ct.Dir != ast.SEND|ast.RECV {
-				die("%s: directional channel field is not supported", rw.pos(fld))
+		case *ast.RangeStmt:
+			if rw.isChan(x.X) {
+				die("%s: range over a channel is not supported by the channel model", rw.pos(x))
 			}
-			for _, nm := range fld.Names {
-				if obj := rw.info.Defs[nm]; obj != nil {
-					rw.chanFields[obj] = true
+		case *ast.CallExpr:
+			if id, ok := x.Fun.(*ast.Ident); ok && len(x.Args) == 1 && rw.isChan(x.Args[0]) {
+				if _, isBuiltin := rw.info.Uses[id].(*types.Builtin); isBuiltin {
+					if m := map[string]string{"len": "Len", "cap": "Cap", "close": "Close"}[id.Name]; m != "" {
+						rw.chanCall[x] = m
+					}
 				}
 			}
-			fld.Type = &ast.StarExpr{X: &ast.IndexExpr{X: sel(rw.need("vchan", "vchan"), "Chan"), Index: ct.Value}}
-			rw.count["chanfield"]++
+		case *ast.CommClause:
+			if x.Comm != nil {
+				rw.inComm[x.Comm] = true
+				switch c := x.Comm.(type) {
+				case *ast.ExprStmt:
+					rw.inComm[unparen(c.X)] = true
+				case *ast.AssignStmt:
+					for _, l := range c.Lhs {
+						if id, ok := l.(*ast.Ident); !ok || id.Name != "_" {
+							die("%s: select case that assigns the received value is not supported by the channel model", rw.pos(c))
+						}
+					}
+					rw.inComm[unparen(c.Rhs[0])] = true
+				}
+			}
 		}
 		return true
 	})
 }
 
-func (rw *rewriter) isChanField(e ast.Expr) bool {
-	e = unparen(e)
-	s, ok := e.(*ast.SelectorExpr)
-	if !ok {
-		return false
-	}
-	if sl := rw.info.Selections[s]; sl != nil && rw.chanFields[sl.Obj()] {
-		return true
-	}
-	return false
+func chanTypeOf(elem ast.Expr, need func(string, string) string) ast.Expr {
+	return &ast.StarExpr{X: &ast.IndexExpr{X: sel(need("vchan", "vchan"), "Chan"), Index: elem}}
 }
 
 func unparen(e ast.Expr) ast.Expr {
@@ -359,6 +387,33 @@ func (rw *rewriter) makeChan(e ast.Expr) (ast.Expr, bool) {
 	}
 	rw.count["chanmake"]++
 	return &ast.CallExpr{Fun: &ast.IndexExpr{X: sel(rw.need("vchan", "vchan"), "Make"), Index: ct.Value}, Args: []ast.Expr{n}}, true
+}
+
+// rewriteSelect turns a select whose clauses are still in their native form into a switch over
+// vchan.Select.
+func (rw *rewriter) rewriteSelect(s *ast.SelectStmt) ast.Stmt {
+	var cases []ast.Expr
+	var clauses []ast.Stmt
+	for i, st := range s.Body.List {
+		cc := st.(*ast.CommClause)
+		var ce ast.Expr
+		switch c := cc.Comm.(type) {
+		case nil:
+			ce = &ast.CallExpr{Fun: sel(rw.need("vchan", "vchan"), "DefaultCase")}
+		case *ast.SendStmt:
+			ce = &ast.CallExpr{Fun: sel(rw.need("vchan", "vchan"), "SendCase"), Args: []ast.Expr{c.Chan, c.Value}}
+		case *ast.ExprStmt:
+			u := unparen(c.X).(*ast.UnaryExpr)
+			ce = &ast.CallExpr{Fun: sel(rw.need("vchan", "vchan"), "RecvCase"), Args: []ast.Expr{u.X}}
+		case *ast.AssignStmt:
+			u := unparen(c.Rhs[0]).(*ast.UnaryExpr)
+			ce = &ast.CallExpr{Fun: sel(rw.need("vchan", "vchan"), "RecvCase"), Args: []ast.Expr{u.X}}
+		}
+		cases = append(cases, ce)
+		clauses = append(clauses, &ast.CaseClause{List: []ast.Expr{&ast.BasicLit{Kind: token.INT, Value: strconv.Itoa(i)}}, Body: cc.Body})
+	}
+	rw.count["select"]++
+	return &ast.SwitchStmt{Tag: &ast.CallExpr{Fun: sel(rw.need("vchan", "vchan"), "Select"), Args: cases}, Body: &ast.BlockStmt{List: clauses}}
 }
 
 // ---------------------------------------------------------------- probe planning
@@ -561,9 +616,6 @@ func (rw *rewriter) planProbes() {
 		if _, isParen := e.(*ast.ParenExpr); isParen {
 			return true
 		}
-		if rw.on["chanfields"] && rw.isChanField(e) {
-			return true
-		}
 		if !rw.candidate(e) {
 			return true
 		}
@@ -585,7 +637,20 @@ func (rw *rewriter) tmp() string {
 }
 
 func (rw *rewriter) apply() {
-	astutil.Apply(rw.file, nil, func(c *astutil.Cursor) bool {
+	pre := func(c *astutil.Cursor) bool {
+		if !rw.on["chans"] {
+			return true
+		}
+		// make(chan T[, n]) as a whole, before its ChanType argument is visited
+		if call, ok := c.Node().(*ast.CallExpr); ok {
+			if mk, ok := rw.makeChan(call); ok {
+				c.Replace(mk)
+				return false
+			}
+		}
+		return true
+	}
+	astutil.Apply(rw.file, pre, func(c *astutil.Cursor) bool {
 		n := c.Node()
 		switch x := n.(type) {
 		case *ast.GoStmt:
@@ -595,46 +660,20 @@ func (rw *rewriter) apply() {
 			}
 			return true
 		case *ast.SendStmt:
-			if rw.on["chanfields"] && rw.isChanFieldRewritten(x.Chan) {
+			if rw.on["chans"] && rw.chanSend[x] && !rw.inComm[x] {
 				c.Replace(&ast.ExprStmt{X: &ast.CallExpr{Fun: &ast.SelectorExpr{X: x.Chan, Sel: ast.NewIdent("Send")}, Args: []ast.Expr{x.Value}}})
 				rw.count["chansend"]++
 			}
 			return true
-		case *ast.RangeStmt:
-			if rw.on["chanfields"] && rw.isChanFieldRewritten(x.X) {
-				die("%s: range over an instrumented channel is not supported", rw.pos(x))
+		case *ast.SelectStmt:
+			if rw.on["chans"] {
+				c.Replace(rw.rewriteSelect(x))
 			}
+			return true
+		case *ast.RangeStmt:
 			if rw.on["maprange"] && rw.rangeIsMap[x] {
 				x.X = &ast.CallExpr{Fun: sel(rw.need("vmap", "vmap"), "Range"), Args: []ast.Expr{x.X}}
 				rw.count["maprange"]++
-			}
-			return true
-		case *ast.CommClause:
-			return true
-		case *ast.KeyValueExpr:
-			if rw.on["chanfields"] {
-				if id, ok := x.Key.(*ast.Ident); ok && rw.chanFields[rw.info.Uses[id]] {
-					if mk, ok := rw.makeChan(x.Value); ok {
-						x.Value = mk
-					} else {
-						die("%s: channel field initialised with something other than make(chan T, n)", rw.pos(x))
-					}
-				}
-			}
-			return true
-		case *ast.AssignStmt:
-			if rw.on["chanfields"] {
-				for i, l := range x.Lhs {
-					if rw.isChanFieldRewritten(l) {
-						if i < len(x.Rhs) {
-							if mk, ok := rw.makeChan(x.Rhs[i]); ok {
-								x.Rhs[i] = mk
-								continue
-							}
-						}
-						die("%s: channel field assigned something other than make(chan T, n)", rw.pos(x))
-					}
-				}
 			}
 			return true
 		}
@@ -642,44 +681,43 @@ func (rw *rewriter) apply() {
 		if !ok {
 			return true
 		}
-		// runtime.Gosched
-		if rw.on["gosched"] {
-			if call, ok := e.(*ast.CallExpr); ok {
-				if s, ok := call.Fun.(*ast.SelectorExpr); ok && s.Sel.Name == "Gosched" {
-					if id, ok := s.X.(*ast.Ident); ok {
-						if pn, ok := rw.info.Uses[id].(*types.PkgName); ok && pn.Imported().Path() == "runtime" {
+		// runtime.Gosched, time.After
+		if call, ok := e.(*ast.CallExpr); ok {
+			if s, ok := call.Fun.(*ast.SelectorExpr); ok {
+				if id, ok := s.X.(*ast.Ident); ok {
+					if pn, ok := rw.info.Uses[id].(*types.PkgName); ok {
+						switch {
+						case rw.on["gosched"] && pn.Imported().Path() == "runtime" && s.Sel.Name == "Gosched":
 							call.Fun = sel(rw.need("vruntime", "vruntime"), "Gosched")
 							rw.count["gosched"]++
+						case rw.on["chans"] && pn.Imported().Path() == "time" && s.Sel.Name == "After":
+							call.Fun = sel(rw.need("vtime", "vtime"), "After")
+							rw.count["time.After"]++
 						}
 					}
 				}
 			}
 		}
-		if rw.on["chanfields"] {
+		if rw.on["chans"] {
 			switch x := e.(type) {
+			case *ast.ChanType:
+				c.Replace(chanTypeOf(x.Value, rw.need))
+				rw.count["chantype"]++
+				return true
 			case *ast.UnaryExpr:
-				if x.Op == token.ARROW && rw.isChanFieldRewritten(x.X) {
+				if x.Op == token.ARROW && rw.chanRecv[x] && !rw.inComm[x] {
 					name := "Recv"
 					if as, ok := c.Parent().(*ast.AssignStmt); ok && len(as.Lhs) == 2 && len(as.Rhs) == 1 {
 						name = "Recv2"
-					}
-					if _, inSelect := c.Parent().(*ast.CommClause); inSelect {
-						die("%s: select on an instrumented channel is not supported", rw.pos(x))
 					}
 					c.Replace(&ast.CallExpr{Fun: &ast.SelectorExpr{X: x.X, Sel: ast.NewIdent(name)}})
 					rw.count["chanrecv"]++
 					return true
 				}
 			case *ast.CallExpr:
-				if id, ok := x.Fun.(*ast.Ident); ok && len(x.Args) == 1 && rw.isChanFieldRewritten(x.Args[0]) {
-					if m := map[string]string{"len": "Len", "cap": "Cap", "close": "Close"}[id.Name]; m != "" {
-						c.Replace(&ast.CallExpr{Fun: &ast.SelectorExpr{X: x.Args[0], Sel: ast.NewIdent(m)}})
-						return true
-					}
-				}
-			case *ast.SelectorExpr:
-				if rw.isChanField(x) {
-					rw.checkChanUse(x, c)
+				if m := rw.chanCall[x]; m != "" {
+					c.Replace(&ast.CallExpr{Fun: &ast.SelectorExpr{X: x.Args[0], Sel: ast.NewIdent(m)}})
+					return true
 				}
 			}
 		}
@@ -715,39 +753,6 @@ func (rw *rewriter) apply() {
 // deref builds (*vcore.R(&e)).
 func (rw *rewriter) deref(fn string, e ast.Expr) ast.Expr {
 	return &ast.ParenExpr{X: &ast.StarExpr{X: &ast.CallExpr{Fun: sel(rw.need("vcore", "core"), fn), Args: []ast.Expr{&ast.UnaryExpr{Op: token.AND, X: e}}}}}
-}
-
-func (rw *rewriter) isChanFieldRewritten(e ast.Expr) bool { return rw.isChanField(e) }
-
-// checkChanUse refuses uses of an instrumented channel field that were not translated.
-func (rw *rewriter) checkChanUse(s *ast.SelectorExpr, c *astutil.Cursor) {
-	switch p := c.Parent().(type) {
-	case *ast.SendStmt:
-		if p.Chan == s {
-			return
-		}
-	case *ast.UnaryExpr:
-		if p.Op == token.ARROW {
-			return
-		}
-	case *ast.AssignStmt:
-		for _, l := range p.Lhs {
-			if l == s {
-				return
-			}
-		}
-	case *ast.CallExpr:
-		if id, ok := p.Fun.(*ast.Ident); ok && (id.Name == "len" || id.Name == "cap" || id.Name == "close") {
-			return
-		}
-	case *ast.SelectorExpr:
-		return // already a method call on the shim
-	case *ast.BinaryExpr:
-		if p.Op == token.EQL || p.Op == token.NEQ {
-			return // comparison with nil
-		}
-	}
-	die("%s: unsupported use of an instrumented channel field (passed on, selected on, …)", rw.pos(s))
 }
 
 func (rw *rewriter) rewriteGo(g *ast.GoStmt) ast.Stmt {
